@@ -494,6 +494,18 @@ SetThenMarshal(e) ==
     LET m == MethodByName(e.cls) valid == Valid(m, e.in.vals) IN
     /\ Chk(e, "C13", "marshal_rejects_broken_constraint", ~valid => (e.out.r = "exc" /\ e.out.type = "ValueError"))
     /\ Chk(e, "C13", "marshal_accepts_valid_values", valid => ~(e.out.r = "exc" /\ e.out.type = "ValueError"))
+    \* a retry of the same, untouched object is judged like the first attempt
+    /\ (IF "again" \in DOMAIN e
+        THEN /\ Chk(e, "C13", "retry_still_rejects_broken_constraint", ~valid => (e.again.r = "exc" /\ e.again.type = "ValueError"))
+             /\ Chk(e, "C13", "retry_still_accepts_valid_values", valid => ~(e.again.r = "exc" /\ e.again.type = "ValueError"))
+        ELSE TRUE)
+    /\ UNCHANGED st
+
+\* a frame object built from explicit arguments holds what it was given (protocol header octets -- also zeros --, body bytes,
+\* header weight / size / properties): the round-trip clauses start from the OBJECT, this one from the REQUEST
+BuildFrame(e) ==
+    /\ Chk(e, "C18", "constructor_keeps_what_it_was_given", e.kind \in {"ProtocolHeader", "ContentBody"} => (e.r = "ok" /\ e.got = e.want))
+    /\ Chk(e, "C02", "constructor_keeps_what_it_was_given", e.kind = "ContentHeader" => (e.r = "ok" /\ e.got = e.want))
     /\ UNCHANGED st
 
 CharBlock(e) ==
@@ -810,6 +822,7 @@ Step == /\ l <= Len(Events)
              [] e.a = "Toggle"      -> Toggle(e)
              [] e.a = "SetTZ"       -> SetTZ(e)
              [] e.a = "DriverAbort" -> DriverAbort(e)
+             [] e.a = "BuildFrame"  -> BuildFrame(e)
              [] e.a = "ConnReset"   -> ConnReset(e)
              [] e.a = "ConnFrame"   -> ConnFrame(e)
              [] e.a = "ConnQuiesce" -> ConnQuiesce(e)
